@@ -256,4 +256,21 @@ CHECKS["C06"] = {
     ],
 }
 
+CHECKS["C10"] = {
+    "pkg": "./checks/c10",
+    "level": "exploration",
+    "rule": "generated chain histories with candidate list size 2..4 (verif hook), 1..3 genesis deputies, configured deputy count 1..3, six users who can all afford the deposit, terms of 8 blocks with a 2 block interim, 4..18 blocks "
+            "weighted to register / unregister / top-up / vote / re-vote / transfers that create ties, sibling fork blocks by another deputy, validator restarts at drawn points (unconfirmed blocks re-delivered). "
+            "After every block (fork blocks too) on miner and validator: GetCandidatesTop(block) == all accounts whose profile says candidate in that block's view, sorted by votes desc / address asc, cut to the list size. "
+            "Snapshot blocks: deputy nodes == first N of the parent's list with ranks 0..N-1, the list's votes, non-increasing votes, node id from the profile; once stable the deputy manager serves exactly that term. "
+            "Restart: the stable block's list is unchanged. Later blocks mined by the elected users' own node keys must be accepted. non-trivial = more registered candidates than list slots and >= 1 unregister; distinct by history digest.",
+    "level_text": "Differential against a full sort recomputed from account state after every generated block, on two nodes one of which restarts; exploration bounded by grammar and history length.",
+    "level_note": "Trusted: the address universe contains every candidate; the list size hook (store.VerifSetMaxCandidateCount) only changes the constant 20.",
+    "technique": "rapid-generated histories checked against a reference full sort (differential), incl. restart and fork variants",
+    "assumptions": ["candidates are only accounts that appear in transactions or change logs"],
+    "units": [
+        {"name": "election", "test": "TestC10Election", "quick": {"checks": 120, "shards": 4, "timeout": 900}, "thorough": {"checks": 2000, "shards": 12, "timeout": 3400}},
+    ],
+}
+
 NOT_APPLICABLE = {}
